@@ -1,15 +1,19 @@
 /-
   C06 — Pairing administration is admin-only, exact, and never leaves orphans.
+  Property theorems only; lemmas live in Proofs/PairState.lean and Proofs/PairList.lean.
+  The model (HapModel/PairState.lean) mirrors pyhap with the repair of design/fixes/C06.patch;
+  `parse` stands for `uuid.UUID(bytes.decode("utf-8"))` and is universally quantified.
 -/
-import HapModel.PairState
+import Proofs.PairState
 namespace Hap.PairState
 
 /-- a verified session of a controller that is admin in `s` right now -/
 def Conn.adminNow (s : PState) (c : Conn) : Prop :=
   c.enc = true ∧ ∃ u, c.cu = some u ∧ isAdmin s u = true
 
-/-- Guard: a `POST /pairings` on a connection that is not a verified session of a current admin
-    changes nothing, schedules no save and is answered with an error — whatever the body. -/
+/-- Guard: a `POST /pairings` on a connection that is not a verified session of a controller
+    holding the admin permission *now* changes nothing, schedules no save and is answered with
+    an error — whatever the body (add, remove, list or garbage). -/
 theorem C06_guard (parse : Bytes → Option Uuid) (s : PState) (r : Req) (h : ¬ r.conn.adminNow s) :
     ∃ resp, handlePairings parse s r = (s, resp, false) ∧ resp.isError = true := by
   unfold handlePairings
@@ -21,5 +25,133 @@ theorem C06_guard (parse : Bytes → Option Uuid) (s : PState) (r : Req) (h : ¬
     · exfalso; apply h
       simp only [Bool.or_eq_true, Bool.not_eq_true', not_or, Bool.not_eq_false] at hg
       exact ⟨hg.1, cu, hcu, hg.2⟩
+
+theorem okResp_not_error (pc : Bool) : (okResp pc).isError = false := by
+  cases pc <;> decide
+
+/-- what one operation can do to aligned maps: nothing; register one controller (success
+    answer, save scheduled); or remove one paired controller (success answer, save scheduled) -/
+theorem step_cases (parse : Bytes → Option Uuid) (s : PState) (op : Op) (h : Aligned s) :
+    (∃ resp, step parse s op = (s, resp, false)) ∨
+    (∃ idb key perms s', addPairedClient parse s idb key perms = some s' ∧
+      step parse s op = (s', okResp, true)) ∨
+    (∃ u pc, ahas s.paired u = true ∧ (removePairedClient s u).2 = true ∧
+      step parse s op = ((removePairedClient s u).1, okResp pc, true)) := by
+  cases op with
+  | setup idb key =>
+    simp only [step]
+    cases e : addPairedClient parse s idb key [1] with
+    | none => left; exact ⟨_, rfl⟩
+    | some s' => right; left; exact ⟨idb, key, [1], s', e, rfl⟩
+  | req r =>
+    show (∃ resp, handlePairings parse s r = _) ∨ (∃ idb key perms s', _ ∧ handlePairings parse s r = _) ∨
+      (∃ u pc, _ ∧ _ ∧ handlePairings parse s r = _)
+    unfold handlePairings
+    split
+    · left; exact ⟨_, rfl⟩
+    · split
+      · left; exact ⟨_, rfl⟩
+      · split
+        · left; exact ⟨_, rfl⟩
+        · next objs _ =>
+          split
+          · left; exact ⟨_, rfl⟩
+          · left; exact ⟨_, rfl⟩
+          · split
+            · rcases handleAdd_cases parse s objs with e | ⟨idb, key, perms, s', e1, e2⟩
+              · left; exact ⟨_, e⟩
+              · right; left; exact ⟨idb, key, perms, s', e1, e2⟩
+            · split
+              · rcases handleRemove_cases parse s objs h with e | ⟨pc, e⟩ | ⟨u, pc, e1, e2, e3⟩
+                · left; exact ⟨_, e⟩
+                · left; exact ⟨_, e⟩
+                · right; right; exact ⟨u, pc, e1, e2, e3⟩
+              · split
+                · left; exact ⟨_, rfl⟩
+                · left; exact ⟨_, rfl⟩
+
+/-- Error atomicity: an operation answered with an error (HTTP status ≥ 400 or a TLV error
+    item) leaves all three maps exactly as they were and schedules no save. Covers permission
+    items of length 0, 2, …, identifiers that are not UTF-8 / not a UUID, missing items, unknown
+    request types, undecodable bodies, refused connections. -/
+theorem C06_error_atomic (parse : Bytes → Option Uuid) (s : PState) (op : Op) (h : Aligned s)
+    (herr : (step parse s op).2.1.isError = true) :
+    (step parse s op).1 = s ∧ (step parse s op).2.2 = false := by
+  rcases step_cases parse s op h with ⟨resp, e⟩ | ⟨_, _, _, s', _, e⟩ | ⟨u, pc, _, _, e⟩
+  · rw [e]; exact ⟨rfl, rfl⟩
+  · rw [e] at herr; simp [okResp_not_error] at herr
+  · rw [e] at herr; simp [okResp_not_error] at herr
+
+/-- Alignment is invariant: every operation maps aligned maps to aligned maps. -/
+theorem C06_aligned (parse : Bytes → Option Uuid) (s : PState) (op : Op) (h : Aligned s) :
+    Aligned (step parse s op).1 := by
+  rcases step_cases parse s op h with ⟨resp, e⟩ | ⟨idb, key, perms, s', e1, e⟩ | ⟨u, pc, _, _, e⟩
+  · rw [e]; exact h
+  · rw [e]; exact addPairedClient_aligned parse s s' idb key perms h e1
+  · rw [e]; exact removePairedClient_aligned s u h
+
+/-- … hence after every history from the empty state (or any aligned state) the key lists of
+    `paired_clients` and `client_properties` are equal: no half-registered controller. -/
+theorem C06_aligned_run (parse : Bytes → Option Uuid) (ops : List Op) (s : PState) (h : Aligned s) :
+    Aligned (run parse s ops) := by
+  induction ops generalizing s with
+  | nil => exact h
+  | cons op rest ih => exact ih _ (C06_aligned parse s op h)
+
+/-- Last admin: whenever an operation makes some paired controller unpaired, the result still has
+    a paired admin or has no pairing (and no permission entry) at all. -/
+theorem C06_last_admin (parse : Bytes → Option Uuid) (s : PState) (op : Op) (h : Aligned s)
+    (u : Uuid) (hbefore : u ∈ akeys s.paired) (hafter : u ∉ akeys (step parse s op).1.paired) :
+    let s' := (step parse s op).1
+    (∃ e ∈ s'.paired, isAdmin s' e.1 = true) ∨ (s'.paired = [] ∧ s'.props = []) := by
+  rcases step_cases parse s op h with ⟨resp, e⟩ | ⟨idb, key, perms, s', e1, e⟩ | ⟨v, pc, _, hok, e⟩
+  · rw [e] at hafter; exact absurd hbefore hafter
+  · exfalso
+    rw [e] at hafter
+    unfold addPairedClient at e1
+    split at e1
+    · cases e1
+    · split at e1
+      · cases e1
+        simp only [akeys_aset] at hafter
+        split at hafter
+        · exact hafter hbefore
+        · exact hafter (List.mem_append_left _ hbefore)
+      · cases e1
+  · rw [e]; exact removePairedClient_last_admin s v hok
+
+/-! ### the code as shipped (before design/fixes/C06.patch) -/
+
+private def demoParse (b : Bytes) : Option Uuid :=
+  if b = [65] then some ⟨7, by decide⟩ else if b = [66] then some ⟨8, by decide⟩ else none
+
+private def demoState : PState :=
+  { paired := [(⟨7, by decide⟩, [1, 2, 3])], props := [(⟨7, by decide⟩, 1)], u2b := [(⟨7, by decide⟩, [65])] }
+
+private def demoLegacyOut : Out :=
+  handleAddLegacy demoParse demoState [(tReq, [3]), (tUser, [66]), (tPub, [9, 9]), (tPerm, [1, 0])]
+
+/-- The unrepaired add path breaks error atomicity: an add-pairing whose permissions item has two
+    bytes is answered 500 but leaves controller `8` in `paired_clients` without properties
+    (it could then pair-verify). Same input as the replay found on the implementation. -/
+theorem C06_legacy_counterexample :
+    (demoLegacyOut).2.1.isError = true ∧ (demoLegacyOut).1.paired ≠ demoState.paired ∧
+      ¬ Aligned (demoLegacyOut).1 := by
+  decide
+
+/-! ### non-vacuity -/
+
+example : Aligned demoState := by decide
+example : (Conn.mk true (some ⟨7, by decide⟩)).adminNow demoState := ⟨rfl, _, rfl, by decide⟩
+/-- the repaired model refuses the same request and changes nothing -/
+example : handleAdd demoParse demoState [(tReq, [3]), (tUser, [66]), (tPub, [9, 9]), (tPerm, [1, 0])]
+    = (demoState, err500, false) := by decide
+/-- an admin adds a user, then removing the admin (the last one) clears everything -/
+example :
+    let add : Op := .req ⟨⟨true, some ⟨7, by decide⟩⟩, Tlv.encode [(tReq, [3]), (tUser, [66]), (tPub, [9]), (tPerm, [0])]⟩
+    let rem : Op := .req ⟨⟨true, some ⟨7, by decide⟩⟩, Tlv.encode [(tReq, [4]), (tUser, [65])]⟩
+    (run demoParse demoState [add]).paired.length = 2 ∧
+    (run demoParse demoState [add, rem]).paired = [] ∧ (run demoParse demoState [add, rem]).props = [] := by
+  decide +kernel
 
 end Hap.PairState
